@@ -219,6 +219,274 @@ def assignIlist (v : View) (buf : List Nat) (ilist : List Nat) : Outcome :=
   if !decide (ilist.length ≤ v.N) then .assertFailed buf   -- SBEPP_ASSERT(ilist.size() <= size())
   else assignIter v buf ilist
 
+/-! ### vocabulary of the regenerated definitions
+
+  `extract/methods_staticarray.py` translates the text of every member function
+  of `static_array_ref` (and of `detail::string_length`) into a `do` block over
+  the primitives below (`lean/Sbepp/Extracted/StaticArray.lean`, regenerated on
+  every check); `Lemmas/StaticArrayTie.lean` proves each regenerated definition
+  equal to the hand transliteration above.
+
+  Typing: a pointer/iterator into the modelled memory is its index (`Nat`);
+  `std::size_t` values are `Nat`, every conversion *to* `std::size_t` that the
+  C++ performs is an explicit `toSizeT` (reduction modulo 2^64); a pointer or
+  reverse-iterator difference is an `Int`.  The standard algorithms are not
+  translated: they are the primitives `std*` below, defined by their
+  specification (the loops at the top of this file). -/
+
+inductive Res (α : Type)
+  | ok (a : α) (buf : List Nat)
+  /-- `sbepp::assertion_failed` was called; memory at that moment -/
+  | assertFailed (buf : List Nat)
+  | ub
+
+/-- one member-function call: state = the modelled memory -/
+abbrev M (α : Type) := List Nat → Res α
+
+def Res.andThen {α β} : Res α → (α → List Nat → Res β) → Res β
+  | .ok a s, f => f a s
+  | .assertFailed s, _ => .assertFailed s
+  | .ub, _ => .ub
+
+@[inline] def M.pure {α} (a : α) : M α := fun s => .ok a s
+@[inline] def M.bind {α β} (m : M α) (f : α → M β) : M β := fun s => (m s).andThen f
+
+instance : Monad M where
+  pure := M.pure
+  bind := M.bind
+
+/-- outcome of a member function that returns an iterator or a size -/
+def retVal (m : M Nat) (buf : List Nat) : Outcome :=
+  match m buf with
+  | .ok a b => .ok b (some a)
+  | .assertFailed b => .assertFailed b
+  | .ub => .ub
+
+/-- outcome of a `void` member function -/
+def retVoid (m : M Unit) (buf : List Nat) : Outcome :=
+  match m buf with
+  | .ok _ b => .ok b none
+  | .assertFailed b => .assertFailed b
+  | .ub => .ub
+
+def ubM {α} : M α := fun _ => .ub
+
+/-- `SBEPP_ASSERT(c)` -/
+def assert (c : Bool) : M Unit := fun s => if c then .ok () s else .assertFailed s
+
+/-- conversion of a mathematical value to `std::size_t` -/
+def toSizeT (i : Int) : Nat := (i % 18446744073709551616).toNat
+
+/-- `p - q` for two pointers into the modelled memory -/
+def ptrDiff (p q : Nat) : Int := (p : Int) - (q : Int)
+
+/-- `p + n`, `p[n]` address computation -/
+def ptrAdd (p n : Nat) : Nat := p + n
+
+/-- contextual conversion of a pointer into the modelled memory to `bool`
+    (the null view is not modelled) -/
+def ptrToBool (_ : Nat) : Bool := true
+
+/-- `(*this)(addressof_tag{})` of the base class `byte_range` -/
+def View.beginPtr (v : View) : Nat := v.off
+/-- `(*this)(end_ptr_tag{})` of the base class `byte_range` -/
+def View.endPtr (v : View) : Nat := v.off + v.avail
+
+/-- `*p` as an rvalue -/
+def deref (p : Nat) : M Nat := fun s =>
+  match s[p]? with
+  | some b => .ok b s
+  | none => .ub
+
+/-- `*p = x` -/
+def store (p x : Nat) : M Unit := fun s =>
+  if p < s.length then .ok () (s.set p x) else .ub
+
+/-- a pointer/iterator into memory outside the modelled buffer (the argument
+    string, an input range): the object it points into and the position -/
+structure ExtPtr where
+  mem : List Nat
+  idx : Nat
+  deriving DecidableEq, Repr
+
+/-- `const char*`: `none` = `nullptr` -/
+abbrev CStr := Option ExtPtr
+
+def CStr.ofMem (str : Option (List Nat)) : CStr := str.map (fun m => ⟨m, 0⟩)
+
+/-- `*str` -/
+def derefExt : CStr → M Nat
+  | none => ubM
+  | some p => fun s =>
+    match p.mem[p.idx]? with
+    | some b => .ok b s
+    | none => .ub
+
+/-- `str++` (value of the incremented pointer) -/
+def extNext : CStr → M CStr
+  | none => ubM
+  | some p => fun s => if p.idx < p.mem.length then .ok (some ⟨p.mem, p.idx + 1⟩) s else .ub
+
+/-- `std::begin(r)` / `std::end(r)` of a range or an initializer list -/
+def stdBegin (r : List Nat) : ExtPtr := ⟨r, 0⟩
+def stdEnd (r : List Nat) : ExtPtr := ⟨r, r.length⟩
+
+/-- `std::strlen(str)` -/
+def stdStrlen : CStr → M Nat
+  | none => ubM
+  | some p => fun s =>
+    match scanNul (p.mem.drop p.idx) with
+    | some n => .ok n s
+    | none => .ub
+
+/-- `std::copy_n(src, n, out)` from outside memory -/
+def stdCopyN (src : CStr) (n out : Nat) : M Nat :=
+  match src with
+  | none => ubM
+  | some p => fun s =>
+    if p.idx + n ≤ p.mem.length then
+      match copyLoop s out ((p.mem.drop p.idx).take n) with
+      | some (s', it) => .ok it s'
+      | none => .ub
+    else .ub
+
+/-- `std::copy(first, last, out)` from outside memory -/
+def stdCopy (first last : ExtPtr) (out : Nat) : M Nat := fun s =>
+  if first.mem = last.mem ∧ first.idx ≤ last.idx ∧ last.idx ≤ last.mem.length then
+    match copyLoop s out ((first.mem.drop first.idx).take (last.idx - first.idx)) with
+    | some (s', it) => .ok it s'
+    | none => .ub
+  else .ub
+
+/-- `std::ranges::copy_result`: only `.out` is modelled -/
+structure CopyResult where
+  out : Nat
+
+/-- `std::ranges::copy(r, out)` -/
+def rangesCopy (r : List Nat) (out : Nat) : M CopyResult := fun s =>
+  match copyLoop s out r with
+  | some (s', it) => .ok ⟨it⟩ s'
+  | none => .ub
+
+/-- `std::fill_n(out, n, value)` -/
+def stdFillN (out n value : Nat) : M Nat := fun s =>
+  match fillLoop s out value n with
+  | some (s', it) => .ok it s'
+  | none => .ub
+
+/-- `std::fill(first, last, value)` -/
+def stdFill (first last value : Nat) : M Unit := fun s =>
+  if first ≤ last then
+    match fillLoop s first value (last - first) with
+    | some (s', _) => .ok () s'
+    | none => .ub
+  else .ub
+
+/-- `std::memchr(p, c, n)` loop: outer `none` = left the memory -/
+def memchrLoop (buf : List Nat) (c : Nat) (pos : Nat) : Nat → Option (Option Nat)
+  | 0 => some none
+  | n + 1 =>
+    match buf[pos]? with
+    | none => none
+    | some b => if b = c then some (some pos) else memchrLoop buf c (pos + 1) n
+
+/-- `std::memchr(p, c, n)`; the result is a nullable pointer -/
+def stdMemchr (p c n : Nat) : M (Option Nat) := fun s =>
+  match memchrLoop s (c % 256) p n with
+  | some r => .ok r s
+  | none => .ub
+
+/-- `p - q` where `p` may be null -/
+def nptrDiff (p : Option Nat) (q : Nat) : M Int :=
+  match p with
+  | some a => pure (ptrDiff a q)
+  | none => ubM
+
+/-- `std::reverse_iterator<iterator>` -/
+structure RevIt where
+  base : Nat
+  deriving DecidableEq, Repr
+
+/-- `a - b` for reverse iterators -/
+def RevIt.diff (a b : RevIt) : Int := (b.base : Int) - (a.base : Int)
+
+/-- reverse `find_if` over the `k` elements that end at `lo + k` -/
+def rfindIf (buf : List Nat) (lo : Nat) (pred : Nat → Bool) : Nat → Option Nat
+  | 0 => some 0
+  | k + 1 =>
+    match buf[lo + k]? with
+    | none => none
+    | some b => if pred b then some 0 else (rfindIf buf lo pred k).map (· + 1)
+
+/-- `std::find_if(first, last, pred)` over reverse iterators -/
+def stdFindIfRev (first last : RevIt) (pred : Nat → Bool) : M RevIt := fun s =>
+  if last.base ≤ first.base then
+    match rfindIf s last.base pred (first.base - last.base) with
+    | some j => .ok ⟨first.base - j⟩ s
+    | none => .ub
+  else .ub
+
+/-- short-circuit `a && b` / `a || b` with operands that read memory or assert -/
+def landM (a b : M Bool) : M Bool := do if (← a) then b else pure false
+def lorM (a b : M Bool) : M Bool := do if (← a) then pure true else b
+
+/-- `for(; cond; step) {}` over the loop-carried variables `σ`; `fuel`
+    iterations without the condition becoming false: non-termination, `ub` -/
+def forLoop {σ : Type} (cond : σ → M Bool) (step : σ → M σ) : Nat → σ → M σ
+  | 0, _ => ubM
+  | fuel + 1, st => do
+    if (← cond st) then forLoop cond step fuel (← step st) else pure st
+
+/-- bound on the iterations of a loop that reads a fresh element of the
+    modelled memory, or of the outside objects `ext`, in every iteration -/
+def memBound (ext : List (List Nat)) : M Nat := fun s =>
+  .ok (s.length + (ext.map List.length).sum + 1) s
+
+def CStr.objs : CStr → List (List Nat)
+  | none => []
+  | some p => [p.mem]
+
+/-- all sizes fit `std::size_t` (true of every instantiation: `N` is a
+    `std::size_t` template argument, `end - begin` a pointer difference) -/
+def View.Fits (v : View) : Prop := v.N < 18446744073709551616 ∧ v.avail < 18446744073709551616
+
+/-! ### the helper member functions in the same vocabulary (hand-written) -/
+
+namespace Hand
+
+/-- `size()` -/
+def sizeM (v : View) : M Nat := pure v.N
+
+/-- `data()`: the size check, then `begin` -/
+def dataM (v : View) : M Nat := fun s =>
+  if !v.sizeCheck then .assertFailed s else .ok v.off s
+
+/-- `begin()` -/
+def beginM (v : View) : M Nat := dataM v
+
+/-- `end()` -/
+def endM (v : View) : M Nat := fun s =>
+  if !v.sizeCheck then .assertFailed s else .ok v.endPos s
+
+/-- `rbegin()` -/
+def rbeginM (v : View) : M RevIt := fun s =>
+  if !v.sizeCheck then .assertFailed s else .ok ⟨v.endPos⟩ s
+
+/-- `rend()` -/
+def rendM (v : View) : M RevIt := fun s =>
+  if !v.sizeCheck then .assertFailed s else .ok ⟨v.off⟩ s
+
+/-- `detail::string_length(str)`, both branches -/
+def stringLengthM (str : CStr) : M Nat :=
+  match str with
+  | none => ubM
+  | some p => fun s =>
+    match scanNul (p.mem.drop p.idx) with
+    | some n => .ok n s
+    | none => .ub
+
+end Hand
+
 /-! ### one entry point for the driver and for statements over all operations -/
 
 inductive Op
